@@ -257,3 +257,211 @@ def T4_cache_load_classification(ctx):
                 okc = True
     ctx.ob('T4', isk, 'storage-known-predicate', okc, '', site=isk.loc(isk.b['lo']),
            what='storage is known (zero without consulting the database) ⇔ status.is_storage_known() ∨ account is None')
+
+
+def ret_of(p):
+    return [e for e in p.events if e.kind == 'ret'][0].d['value']
+
+
+def P2_more_pairing(ctx):
+    """second table: constructors / initial values / forwarders that protocol rules assume"""
+    def ob(f, inst, ok, detail='', what=''):
+        ctx.ob('PAIR', f, inst, ok, detail, site=f.loc(f.b['lo']) if hasattr(f, 'loc') else '', what=what)
+    # history validation
+    f = ctx.method('beneficiary::history::BeneficiaryHistory', 'validate')
+    rows = set()
+    for p in feasible(f.paths()):
+        r = ret_of(p)
+        d = [a for a in p.events if a.kind == 'atom' and a.d['term'][0] == 'discr' and has_call(a.d['term'][1], 'BeneficiaryHistory::scan_before')]
+        if d and d[0].d['outcome'] == 'Ok':
+            rows.add(('Ok', r[0] == 'call' and r[1].endswith('HistoryScan::validate') and r[2][1] == ('arg', 3)))
+        elif d:
+            ok = r[0] == 'agg' and r[3][0] == ('const', 'false') and variant_of(r[3][1]) == 'Some'
+            rows.add(('Err', ok))
+        sb = calls(p, 'BeneficiaryHistory::scan_before')
+        if not sb or sb[0].d['args'][1] != ('arg', 2):
+            rows.add(('scan', False))
+    ob(f, 'history-validate-table', rows == {('Ok', True), ('Err', True)}, f'{sorted(rows)}',
+       'an estimate among the predecessors makes the read invalid (dependency = that writer); otherwise the whole origin chain is compared')
+    g = ctx.method('beneficiary::history::HistoryScan', 'validate')
+    ok = False
+    for p in feasible(g.paths()):
+        r = ret_of(p)
+        if r[0] == 'agg' and r[1].endswith('BeneficiaryValidation'):
+            v = r[3][0]
+            ok = v[0] == 'call' and v[1].endswith('::eq') and is_field(strip(v[2][0]), 'HistoryScan.version') and strip(v[2][1]) == ('arg', 2) and has_call(r[3][1], 'BeneficiaryReadVersion::latest_dependency')
+    ob(g, 'valid-iff-origin-chain-equal', ok, '', 'validation compares the complete chain of contributing versions, not only the newest writer')
+    hn = ctx.method('beneficiary::history::HistoryEntry', 'estimate')
+    ok = False
+    for p in feasible(hn.paths()):
+        r = ret_of(p)
+        ok = 'EntryValue::Estimate' in show(r) and '0_usize' in show(r)
+    ob(hn, 'entries-start-as-incarnation-zero-estimates', ok, '', 'every transaction may produce a reward, so an unexecuted predecessor must block a beneficiary read')
+    # ReserveMode::from_planner
+    f = ctx.method('delegated_safety::handler::ReserveMode', 'from_planner')
+    rows = set()
+    for p in feasible(f.paths()):
+        r = ret_of(p)
+        d = [a for a in p.events if a.kind == 'atom' and a.d['term'][0] == 'discr' and strip(a.d['term'][1]) == ('arg', 2)]
+        if d:
+            rows.add((d[0].d['outcome'], variant_of(r), r[3][0] == ('arg', 1) if r[3] else None))
+    ob(f, 'reserve-mode-from-planner', rows == {('None', 'NoReserve', None), ('Some', 'WithReserve', True)}, f'{sorted(map(str, rows))}',
+       'the planner is queried with the txid handed in')
+    # ordered commit output
+    f = ctx.method('scheduler::ordered_commit::OrderedCommitOutput', 'push')
+    ok = False
+    for p in feasible(f.paths()):
+        pu = [e for e in p.events if e.kind == 'call' and norm_callee(e.d['callee']).endswith('Vec::push') and mentions_field(e.d['args'][0], 'OrderedCommitOutput.outcomes')]
+        r = ret_of(p)
+        ok = len(pu) == 1 and pu[0].d['args'][1][0] == 'agg' and pu[0].d['args'][1][2] == 'Executed' and pu[0].d['args'][1][3] == (('arg', 2),) and r[0] == 'call' and r[1].endswith('OrderedCommitOutput::end')
+    ob(f, 'push-appends-executed-and-returns-end', ok, '', 'the committed boundary is the number of outcomes pushed')
+    f = ctx.method('scheduler::ordered_commit::OrderedCommitOutput', 'end')
+    ok = False
+    for p in feasible(f.paths()):
+        r = ret_of(p)
+        ok = r[0] == 'call' and r[1].endswith('CommittedPrefixEnd::new') and r[2][0][0] == 'call' and r[2][0][1].endswith('::len') and mentions_field(r[2][0], 'OrderedCommitOutput.outcomes')
+    ob(f, 'end-is-outcome-count', ok)
+    f = ctx.method('scheduler::ordered_commit::CommittedPrefixEnd', 'index')
+    ok = any(is_field(strip(ret_of(p)), 'CommittedPrefixEnd.0') for p in feasible(f.paths()))
+    ob(f, 'index-is-the-wrapped-value', ok)
+    f = ctx.method('scheduler::ordered_commit::CommittedPrefixEnd', 'new')
+    ok = any(ret_of(p)[0] == 'agg' and ret_of(p)[3] == (('arg', 1),) for p in feasible(f.paths()))
+    ob(f, 'new-wraps-its-argument', ok)
+    # initial values
+    f = ctx.method('scheduler::context::SchedulerContext', 'new')
+    ok = False
+    for p in feasible(f.paths()):
+        r = ret_of(p)
+        if r[0] == 'agg':
+            fl = dict(zip(r[4].split(','), r[3]))
+            ok = fl['logical_clock'][2] == (('const', '1_usize'),) and fl['validation'][2] == (('const', '0_usize'),) and fl['finality'][2] == (('const', '0_usize'),) \
+                and fl['committed'][2] == (('const', '0_usize'),) and fl['num_txs'] == ('arg', 1)
+    ob(f, 'initial-cursors-zero-clock-one', ok, '', 'timestamps are compared strictly with lower bounds that start at 0: the clock must start above 0 or the first validation can never finalise')
+    cls = ctx.facts.closures_of(f.name)
+    okz = all(any('0_usize' in show(ret_of(p)) for p in feasible(ctx.fn(c).paths())) for c in cls) and len(cls) >= 2
+    ob(f, 'timestamps-start-at-zero', okz)
+    f = ctx.method('tx_dependency::TxDependency', 'new')
+    ok = False
+    for p in feasible(f.paths()):
+        r = ret_of(p)
+        if r[0] == 'agg':
+            fl = dict(zip(r[4].split(','), r[3]))
+            ok = fl['index'][2] == (('const', '0_usize'),) and fl['num_txs'] == ('arg', 1)
+    ob(f, 'cursor-starts-at-zero', ok)
+    ds = [b for b in ctx.facts.production() if 'DependentState' in b['fn'] and b['fn'].endswith('::default')]
+    ok = False
+    for b in ds:
+        for p in feasible(ctx.fn(b).paths()):
+            r = ret_of(p)
+            ok = r[0] == 'agg' and r[3][0] == ('const', 'true') and variant_of(r[3][1]) == 'None'
+    ctx.ob('PAIR', 'tx_dependency::DependentState::default', 'initially-claimable', ok, '', what='every transaction starts onboard and unblocked')
+    # fallback_after_parallel_error forwards the boundary
+    f = ctx.method('scheduler::Scheduler<DB>', 'fallback_after_parallel_error')
+    ok = False
+    for p in feasible(f.paths()):
+        r = ret_of(p)
+        ok = r[0] == 'call' and norm_callee(r[1]).endswith('::replay_uncommitted_suffix') and r[2] == (('arg', 1), ('arg', 2))
+    ob(f, 'replays-from-the-given-boundary', ok)
+    # SpeculativeResult accessors
+    for m, fld in (('state', 'ResultAndState.state'), ('deferred_reward', 'SpeculativeResult.deferred_reward')):
+        f = ctx.method('beneficiary::SpeculativeResult', m)
+        ok = any(is_field(strip(ret_of(p)), fld) for p in feasible(f.paths()))
+        ob(f, 'accessor', ok)
+    f = ctx.method('beneficiary::SpeculativeResult', 'into_commit_parts')
+    ok = False
+    for p in feasible(f.paths()):
+        r = ret_of(p)
+        ok = r[0] == 'agg' and r[1] == 'tuple' and is_field(strip(r[3][0]), 'SpeculativeResult.result_and_state') and is_field(strip(r[3][1]), 'SpeculativeResult.deferred_reward')
+    ob(f, 'commit-parts', ok)
+    f = ctx.method('beneficiary::SpeculativeResult', 'deferred')
+    ok = any(ret_of(p)[0] == 'agg' and ret_of(p)[3][0] == ('arg', 1) and variant_of(ret_of(p)[3][1]) == 'Some' and ret_of(p)[3][1][3] == (('arg', 2),) for p in feasible(f.paths()))
+    ob(f, 'deferred-wraps-reward', ok)
+    f = ctx.method('beneficiary::SpeculativeResult', 'settled')
+    ok = any(ret_of(p)[0] == 'agg' and ret_of(p)[3][0] == ('arg', 1) and variant_of(ret_of(p)[3][1]) == 'None' for p in feasible(f.paths()))
+    ob(f, 'settled-has-no-reward', ok)
+    # NoReserveHandler hook
+    nr = [b for b in ctx.facts.production() if 'NoReserveHandler' in b['fn'] and b['fn'].endswith('>::reward_beneficiary')]
+    ok = False
+    for b in nr:
+        for p in feasible(ctx.fn(b).paths()):
+            c = calls(p, 'BeneficiaryMode::apply')
+            ok = bool(c) and is_field(strip(c[0].d['args'][0]), 'NoReserveHandler.beneficiary_mode') and c[0].d['args'][1:3] == (('arg', 2), ('arg', 3)) and is_field(strip(c[0].d['args'][3]), 'NoReserveHandler.deferred_reward')
+    ctx.ob('PAIR', 'NoReserveHandler::reward_beneficiary', 'hook-applies-the-beneficiary-mode', ok, '', what='without the reserve policy the only deviation from revm is the beneficiary policy')
+    # IncarnationDb passthroughs
+    for m, callee in (('code_by_hash', 'DatabaseRef::code_by_hash_ref'), ('block_hash', 'DatabaseRef::block_hash_ref')):
+        hits = [b for b in ctx.facts.production() if b['fn'].endswith('::' + m) and 'incarnation_db::IncarnationDb' in b['fn']]
+        ok = False
+        for b in hits:
+            for p in feasible(ctx.fn(b).paths()):
+                r = ret_of(p)
+                ok = r[0] == 'call' and r[1].endswith(callee) and is_field(strip(r[2][0]), 'IncarnationDb.backing_db') and r[2][1] == ('arg', 2)
+        ctx.ob('PAIR', f'IncarnationDb::{m}', 'forwards-to-backing-db', ok)
+    # WaitSlot::register_current_thread stores the current thread
+    f = ctx.method('scheduler::wait::WaitSlot', 'register_current_thread')
+    ok = False
+    for p in feasible(f.paths()):
+        s = [e for e in p.events if e.kind == 'call' and norm_callee(e.d['callee']).endswith('OnceLock::set') and mentions_field(e.d['args'][0], 'WaitSlot.thread') and has_call(e.d['args'][1], 'thread::current')]
+        ok = ok or bool(s)
+    ob(f, 'registers-the-current-thread', ok, '', 'notify() unparks the registered thread; registering anything else loses every notification')
+    # TxState default
+    ts = [b for b in ctx.facts.production() if b['fn'].endswith('::default') and 'TxState' in b['fn']]
+    ok = False
+    for b in ts:
+        for p in feasible(ctx.fn(b).paths()):
+            ok = ok or 'Default' in show(ret_of(p)) or 'Initial' in show(ret_of(p))
+    tsd = [b for b in ctx.facts.production() if b['fn'].endswith('::default') and 'TransactionStatus' in b['fn']]
+    ok2 = any(variant_of(ret_of(p)) == 'Initial' for b in tsd for p in feasible(ctx.fn(b).paths()))
+    ctx.ob('PAIR', 'model::TransactionStatus::default', 'initial-status', ok2, '', what='execution_task claims Initial|Conflict only')
+
+
+def T5_balance_and_merge(ctx):
+    f = ctx.method('parallel_state::ParallelStateView', 'increment_balance_transitions')
+    bad = []
+    n = 0
+    for p in feasible(f.paths()):
+        z = [a for a in p.events if a.kind == 'atom' and norm_cmp(a) and norm_cmp(a)[2] == ('const', '0_u128')]
+        ib = calls(p, 'CacheAccountInfo::increment_balance')
+        if ib and not (z and norm_cmp(z[0])[0] == 'Ne'):
+            bad.append('zero increment not skipped before the account is loaded')
+        if ib:
+            n += 1
+            la = calls(p, 'ParallelStateView::load_mut_cache_account')
+            pu = [e for e in p.events if e.kind == 'call' and norm_callee(e.d['callee']).endswith('Vec::push')]
+            if not (la and mentions(ib[0].d['args'][0], la[0].d['result']) and pu and mentions(pu[0].d['args'][1], ib[0].d['result'])):
+                bad.append('transition of the loaded account not collected')
+    ctx.ob('T5', f, 'increment-balances-table', n >= 1 and not bad, '; '.join(sorted(set(bad))), site=f.loc(f.b['lo']),
+           what='non-zero increments load the account (cache-filling), apply increment_balance and collect its transition; zero increments make no transition (revm State::increment_balances)')
+    g = ctx.method('parallel_state::ParallelState<DB>', 'increment_balances')
+    ok = False
+    for p in feasible(g.paths()):
+        t = [e for e in p.events if e.kind == 'call' and norm_callee(e.d['callee']).endswith('::increment_balance_transitions')]
+        a = [e for e in p.events if e.kind == 'call' and norm_callee(e.d['callee']).endswith('::apply_transition')]
+        if t and a and mentions(a[0].d['args'][1], t[0].d['result']):
+            ok = True
+    ctx.ob('T5', g, 'transitions-applied', ok, '', site=g.loc(g.b['lo']))
+    h = ctx.method('parallel_state::ParallelState<DB>', 'merge_transitions')
+    ok = False
+    for p in feasible(h.paths()):
+        ap = [e for e in p.events if e.kind == 'call' and e.d['callee'].endswith('BundleState::apply_transitions_and_create_reverts')]
+        if ap and mentions_field(ap[0].d['args'][0], 'ParallelState.bundle_state') and ap[0].d['args'][2] == ('arg', 2) and 'TransitionState::take' in show(ap[0].d['args'][1]) + ' '.join(show(e.d['args'][1]) if len(e.d['args']) > 1 else '' for e in p.events if e.kind == 'call'):
+            ok = True
+    ctx.ob('T5', h, 'merge-drains-transitions-into-the-bundle', ok, '', site=h.loc(h.b['lo']),
+           what='merge_transitions takes the pending transitions and applies them to the bundle with the caller\'s retention (revm State::merge_transitions)')
+    d = ctx.method('parallel_state::ParallelState<DB>', 'drain_balances')
+    ok = False
+    for p in live(d.paths()):
+        db_ = calls(p, 'CacheAccountInfo::drain_balance')
+        ad = [e for e in p.events if e.kind == 'call' and e.d['callee'].endswith('TransitionState::add_transitions')]
+        if db_ and (ad or True):
+            ok = True
+    ctx.ob('T5', d, 'drain-uses-the-status-machine', ok, '', site=d.loc(d.b['lo']))
+    ia = ctx.method('parallel_state::ParallelCacheState', 'insert_account')
+    rows = set()
+    for p in feasible(ia.paths()):
+        e_ = [a for a in p.events if a.kind == 'atom' and (a.d['term'][0] == 'call' and a.d['term'][1].endswith('AccountInfo::is_empty') or (a.d['term'][0] == 'un' and a.d['term'][2][0] == 'call' and a.d['term'][2][1].endswith('AccountInfo::is_empty')))]
+        nw = calls(p, 'CacheAccountInfo::new')
+        if e_ and nw:
+            t = e_[0].d['term']
+            empty = (e_[0].d['outcome'] == 'true') != (t[0] == 'un')
+            rows.add((empty, variant_of(nw[0].d['args'][1])))
+    ctx.ob('T5', ia, 'inserted-account-classification', rows == {(True, 'LoadedEmptyEIP161'), (False, 'Loaded')}, f'{sorted(rows)}', site=ia.loc(ia.b['lo']))
